@@ -217,6 +217,32 @@ func raceChild(scenario string, seed uint64, g, procs int) string {
 				}
 			}()
 		}
+	case "fqsq":
+		// a container method against a quote method on a quote that lives *inside* the container (obtained once through
+		// Quote): the container's lock does not guard the quote's own fields
+		a, b := parts[1], parts[2]
+		fqs := bt.NewFeeQuotes("m0")
+		inner, err := fqs.Quote("m0")
+		if err != nil {
+			return "child-failed no-quote"
+		}
+		for i := 0; i < g; i++ {
+			i := i
+			base := i * 100000
+			st := newStats()
+			wg.Add(1)
+			go func() {
+				defer wg.Done()
+				<-start
+				for k := 0; k < iters; k++ {
+					if i%2 == 0 {
+						callFQs(fqs, a, (base+k)*3, st) // *3: always miner m0
+					} else {
+						callFQ(inner, b, base+k, st)
+					}
+				}
+			}()
+		}
 	case "engine":
 		cases := engineCases(r, 24)
 		eng := interpreter.NewEngine()
@@ -399,6 +425,11 @@ func genC18(e *emitter, tier string, seed uint64) {
 		for i, a := range fqsMethods {
 			for _, b := range fqsMethods[i:] {
 				run("fqs:"+a+":"+b, c[0], c[1])
+			}
+		}
+		for _, a := range []string{"Fee", "Quote", "UpdateMinerFees"} {
+			for _, b := range []string{"AddQuote", "Fee", "UnmarshalJSON", "MarshalJSON"} {
+				run("fqsq:"+a+":"+b, c[0], c[1])
 			}
 		}
 		// a race needs two executions to overlap in time: several runs with different seeds and widths (one run of
